@@ -71,8 +71,29 @@ def tiny_specs():
         "avar": {"wght": [[100, 100], [400, 350], [900, 900]], "wdth": [[50, 50], [100, 100], [150, 170], [200, 200]]},
         "fea": tinyfont.FEA_VAR,
     }
+    S["vf-ttf-2axis-fvboth"] = {
+        "kind": "ttf", "shapes": "mixed", "glyphs": ["a", "b", "c", "d", "e"],
+        "axes": [["wght", 100, 400, 900], ["wdth", 50, 100, 200]],
+        "masters": [{}, {"wght": 100}, {"wght": 900}, {"wdth": 50}, {"wdth": 200}, {"wght": 900, "wdth": 200}],
+        "coef": 2,
+    }
     return S
 
+
+# feature files compiled into generated fonts after the build (the font then has its fvar): feature
+# variations in GSUB *and* GPOS that share their condition sets
+FEA_VARIATIONS = {
+    "vf-ttf-2axis-fvboth": """
+languagesystem DFLT dflt;
+feature kern { pos a b -20; pos d e 12; } kern;
+conditionset heavy { wght 650 900; } heavy;
+variation rvrn heavy { sub a by b; } rvrn;
+variation kern heavy { pos a b -90; pos c d 30; } kern;
+conditionset narrow { wdth 50 75; } narrow;
+variation kern narrow { pos b c 17; } kern;
+variation rvrn narrow { sub c by e; } rvrn;
+""",
+}
 
 # feature variations added to generated fonts after the build (normalised coordinates)
 FEATURE_VARS = {
@@ -92,6 +113,12 @@ def build_tiny(name, spec):
 
         font = tinyfont.reload(font)
         addFeatureVariations(font, fv, featureTag="rvrn")
+    fea = FEA_VARIATIONS.get(name)
+    if fea:
+        from fontTools.feaLib.builder import addOpenTypeFeaturesFromString
+
+        font = tinyfont.reload(font)
+        addOpenTypeFeaturesFromString(font, fea)
     return tinyfont.to_bytes(font)
 
 
